@@ -168,6 +168,28 @@ def put_in_state(game, meta, sclass, rnd):
             req("software_manager", "application", "uninstall", a)
         req("network_interface", 1, "disable")
         return f"{h} apps uninstalled, nic disabled"
+    if sclass == "timed-pending":
+        # every timed operation of the host is already running (folder scan / restore, node scan, fix, restart, install): the same
+        # requests arriving again must still be answered with a documented status
+        fs = node.file_system
+        done = []
+        for fo in list(fs.folders.values()):
+            fo.scan_duration, fo.restore_duration = 3, 3
+            req("file_system", "folder", fo.name, "restore")
+            req("file_system", "folder", fo.name, "scan")
+            done.append(fo.name)
+        req("os", "scan")
+        for name, sw in list(node.software_manager.software.items()):
+            kind = "service" if hasattr(sw, "restart_duration") else "application"
+            if name in ("arp", "icmp", "user-manager", "user-session-manager"):
+                continue
+            req(kind, name, rnd.choice(["fix", "fix", "restart"] if kind == "service" else ["fix"]))
+        for a in meta["hosts"][h]["apps"][:1]:
+            req("software_manager", "application", "uninstall", a)
+            req("software_manager", "application", "install", a)
+        sim.apply_timestep(1)
+        sim.pre_timestep(2)
+        return f"{h} timed operations pending on " + ",".join(done)
     if sclass == "recreated":
         # names that were deleted / removed and then created again: the request tree must now address the NEW objects
         fs = node.file_system
@@ -193,7 +215,7 @@ def put_in_state(game, meta, sclass, rnd):
     raise ValueError(sclass)
 
 
-SCLASSES = ["pristine", "node-off", "node-shutting-down", "node-booting", "software", "fs", "uninstalled", "recreated"]
+SCLASSES = ["pristine", "node-off", "node-shutting-down", "node-booting", "software", "fs", "uninstalled", "recreated", "timed-pending"]
 
 
 # ------------------------------------------------------------------------------------------------ routing monitor
@@ -482,7 +504,7 @@ def case_actions(spec, cov, out):
         game = corpus.build_game(cfg)
         pairs = action_component_pairs(game, meta, rnd)  # components named from the pristine live object graph
         desc = put_in_state(game, meta, sclass, rnd)
-        if sclass in ("fs", "uninstalled", "recreated"):
+        if sclass in ("fs", "uninstalled", "recreated", "timed-pending"):
             # these classes remove components: the clause is about EXISTING components, so re-read the live graph
             pairs = action_component_pairs(game, meta, rnd)
         mon = ReqMonitor(game, cov, out, {"gen_seed": spec["seed"], "family": meta["family"], "state": desc})
